@@ -97,7 +97,7 @@ func (ex *Exec) callFunc(g *G, fn *ssa.Function, args []Value, env []Value, done
 		h(ex, g, fn, args, done)
 		return
 	}
-	if fn.Name() == "init" && fn.Synthetic != "" && (fn.Pkg == nil || !strings.HasPrefix(fn.Pkg.Pkg.Path(), ex.E.ModPath)) {
+	if fn.Name() == "init" && fn.Synthetic != "" && (fn.Pkg == nil || !strings.HasPrefix(fn.Pkg.Pkg.Path(), ex.E.ModPath) || isGeneratedPBPkg(fn.Pkg)) {
 		done(nil) // initialisers of dependency packages are not executed
 		return
 	}
@@ -420,4 +420,14 @@ func (ex *Exec) callSync(g *G, fnv Value, args []Value) Value {
 	}
 	g.nested--
 	return res
+}
+
+// isGeneratedPBPkg recognises protoc-gen-go output (its initialiser only builds descriptors, which the model replaces).
+func isGeneratedPBPkg(p *ssa.Package) bool {
+	for name, m := range p.Members {
+		if _, ok := m.(*ssa.Global); ok && strings.HasPrefix(name, "File_") && strings.HasSuffix(name, "_proto") {
+			return true
+		}
+	}
+	return false
 }
